@@ -88,7 +88,14 @@ func (m *Model) Setup() {
 	}
 }
 
-func (m *Model) actor(n string) *world.Actor { return world.Cast(n) }
+// actor resolves a cast name; "NAME~vK" is the same wallet under the address built with version byte K.
+func (m *Model) actor(n string) *world.Actor {
+	if i := strings.Index(n, "~v"); i > 0 {
+		k, _ := strconv.Atoi(n[i+2:])
+		return world.Alias(n[:i], byte(k))
+	}
+	return world.Cast(n)
+}
 
 // Init resets the world.
 func (m *Model) Init() {
